@@ -1,0 +1,125 @@
+//! Verification hook: canonical state fingerprints of a `ClientSession` (feature `verif`).
+use super::outstanding_transaction::{OutstandingTransaction, TransactionPurpose};
+use super::{ClientSession, ClientSessionConfig, ClientState, PublishRequestType};
+use verif_hooks::{push_bytes, push_u32, push_u64};
+
+impl ClientSession {
+    /// The protocol-logic part of the state (everything except the two codecs and the clock).
+    pub fn verif_fingerprint_logic(&self, out: &mut Vec<u8>) {
+        let ClientSession {
+            start_time: _,
+            serializer: _,
+            deserializer: _,
+            config,
+            next_transaction_id,
+            outstanding_transactions,
+            current_state,
+            connected_app_name,
+            active_stream_id,
+            peer_window_ack_size,
+            bytes_received: _, // statistic nothing reads
+            bytes_received_since_last_ack,
+        } = self;
+
+        let ClientSessionConfig {
+            flash_version,
+            playback_buffer_length_ms,
+            window_ack_size,
+            chunk_size,
+            tc_url,
+        } = config;
+        push_bytes(out, flash_version.as_bytes());
+        push_u32(out, *playback_buffer_length_ms);
+        push_u32(out, *window_ack_size);
+        push_u32(out, *chunk_size);
+        match *tc_url {
+            None => out.push(0),
+            Some(ref url) => {
+                out.push(1);
+                push_bytes(out, url.as_bytes());
+            }
+        }
+
+        push_u32(out, *next_transaction_id);
+
+        let mut keys: Vec<&u32> = outstanding_transactions.keys().collect();
+        keys.sort();
+        push_u32(out, keys.len() as u32);
+        for key in keys {
+            push_u32(out, *key);
+            match outstanding_transactions[key] {
+                OutstandingTransaction::ConnectionRequested { ref app_name } => {
+                    out.push(0);
+                    push_bytes(out, app_name.as_bytes());
+                }
+                OutstandingTransaction::CreateStream { ref purpose } => match *purpose {
+                    TransactionPurpose::PlayRequest { ref stream_key } => {
+                        out.push(1);
+                        push_bytes(out, stream_key.as_bytes());
+                    }
+                    TransactionPurpose::PublishRequest {
+                        ref stream_key,
+                        ref request_type,
+                    } => {
+                        out.push(2);
+                        push_bytes(out, stream_key.as_bytes());
+                        out.push(match *request_type {
+                            PublishRequestType::Live => 0,
+                            PublishRequestType::Record => 1,
+                            PublishRequestType::Append => 2,
+                        });
+                    }
+                },
+            }
+        }
+
+        out.push(match *current_state {
+            ClientState::Disconnected => 0,
+            ClientState::Connected => 1,
+            ClientState::PlayRequested => 2,
+            ClientState::Playing => 3,
+            ClientState::PublishRequested => 4,
+            ClientState::Publishing => 5,
+        });
+
+        match *connected_app_name {
+            None => out.push(0),
+            Some(ref name) => {
+                out.push(1);
+                push_bytes(out, name.as_bytes());
+            }
+        }
+
+        match *active_stream_id {
+            None => out.push(0),
+            Some(id) => {
+                out.push(1);
+                push_u32(out, id);
+            }
+        }
+
+        match *peer_window_ack_size {
+            None => out.push(0),
+            Some(size) => {
+                out.push(1);
+                push_u32(out, size);
+            }
+        }
+        push_u32(out, *bytes_received_since_last_ack);
+    }
+
+    /// The codec part of the state (serializer, deserializer) and the clock anchor.
+    pub fn verif_fingerprint_codec(&self, out: &mut Vec<u8>) {
+        self.serializer.verif_fingerprint(out);
+        self.deserializer.verif_fingerprint(out);
+        push_u64(out, self.start_time.verif_created_ns());
+    }
+
+    pub fn verif_fingerprint_deserializer(&self, out: &mut Vec<u8>) {
+        self.deserializer.verif_fingerprint(out);
+    }
+
+    pub fn verif_ack_state(&self) -> (Option<u32>, u32) {
+        (self.peer_window_ack_size, self.bytes_received_since_last_ack)
+    }
+}
